@@ -639,6 +639,10 @@ func (b *bodyRun) runLoop(li *loopInfo) {
 		// an invariant that names a local the code no longer has is dropped with
 		// a note (the derived invariant below may still carry the proof); it is
 		// never a reason to stop
+		if e.DB.Dropped[FuncKey(b.fn)+"/inv/"+label+"/"+clauseLabel(inv)] {
+			e.note("%s: invariant `%s` not used: it failed, the function is re-verified without it", label, inv.Text)
+			continue
+		}
 		if msg := b.invResolves(inv, names, stIn, label, ctrPhi, li); msg != "" {
 			e.note("%s: invariant `%s` not used: %s", label, inv.Text, msg)
 			continue
@@ -1530,9 +1534,21 @@ func (b *bodyRun) localsByType(names map[string]nameBinding) map[string]nameBind
 		if nb.isAddr {
 			T = derefType(T)
 		}
-		ts := strings.ReplaceAll(types.TypeString(T, nil), "uint8", "byte")
-		count[ts]++
-		pick[ts] = nb
+		// the type may be written with the full package path, with the package
+		// name, or (for types of the package itself) unqualified
+		forms := map[string]bool{}
+		for _, q := range []types.Qualifier{nil, func(p *types.Package) string { return p.Name() }, func(p *types.Package) string {
+			if p == b.fn.Pkg.Pkg {
+				return ""
+			}
+			return p.Name()
+		}} {
+			forms[strings.ReplaceAll(types.TypeString(T, q), "uint8", "byte")] = true
+		}
+		for ts := range forms {
+			count[ts]++
+			pick[ts] = nb
+		}
 	}
 	out := map[string]nameBinding{}
 	for ts, k := range count {
